@@ -17,6 +17,12 @@ HASH_FN = {'join': 'hashjoin', 'left': 'hashleftjoin', 'right': 'hashrightjoin',
            'lookup': 'hashlookupjoin'}
 
 
+def _intnames(case):
+    if case['lay'] == 'diff':
+        return {}                 # different key names: no natural key, the variant does not apply
+    return {'k': 2, 'j': 0} if case['lay'] in ('compound', 'cswap') else {'k': 1}
+
+
 def tables(case, prof, occ=0):
     lay = LAYOUT[case['lay']]
     left = [list(lay['lh'])] + [prof.row(r, occ + i) for i, r in enumerate(case['left'])]
@@ -67,6 +73,9 @@ def compare(case, prof, got, variant, ordered='key'):
                       'R_' if variant.get('prefix') and case['op'] != 'anti' else None)
     if variant.get('sharednames'):
         want_hdr = tuple('a' if f == 'b' else f for f in want_hdr)
+    if variant.get('intnames'):
+        ren = _intnames(case)
+        want_hdr = tuple(ren.get(f, f) for f in want_hdr)
     if not got:
         return 'no header row delivered', None
     if tuple(got[0]) != want_hdr:
@@ -102,6 +111,11 @@ def run_merge(case, prof, variant, occ=0):
         kw['presorted'] = True
     if variant.get('sharednames'):
         right = [['a' if f == 'b' else f for f in right[0]]] + right[1:]
+    if variant.get('intnames'):
+        # the common fields are NAMED by ints (names, not positions: the natural key is found by name)
+        ren = _intnames(case)
+        left = [[ren.get(f, f) for f in left[0]]] + left[1:]
+        right = [[ren.get(f, f) for f in right[0]]] + right[1:]
     if variant.get('inputs') == 'revsorted' and all(len(r) == len(left[0]) for r in left[1:]) and all(len(r) == len(right[0]) for r in right[1:]):
         # (rectangular inputs only: sorting raw short rows would reorder rows whose keys coincide only once padded)
         # the inputs are themselves views: sort views in DESCENDING key order (the join has to sort for itself)
